@@ -283,6 +283,17 @@ class CallMixin:
             if st is not None:
                 self.call_function(st, [base, v], {}, path, node, self_ref=base)
                 return
+            fi = self.repo.lookup_method(ci, attr)
+            if fi is not None and fi.is_property:
+                # in-place mutation of a container reached through a read-only alias property
+                # (`def p(self): return self._f`): the write goes to the aliased field
+                body = [b for b in fi.node.body if not (isinstance(b, ast.Expr) and isinstance(b.value, ast.Constant))]
+                if len(body) == 1 and isinstance(body[0], ast.Return) and isinstance(body[0].value, ast.Attribute) \
+                        and isinstance(body[0].value.value, ast.Name) and body[0].value.value.id == "self" \
+                        and isinstance(v, (sv.SDict, sv.SList, sv.SSet)):
+                    self.setattr(base, body[0].value.attr, v, path, node)
+                    return
+                raise Unsupported(f"assignment to read-only property {attr}", node)
         else:
             ic = self.registry.find_iface(self.static_names(base), attr + ".setter")
             if ic is not None:
@@ -392,7 +403,7 @@ class CallMixin:
                 return self.call_function(fi, [ref] + args, kwargs, path, node, self_ref=ref)
             if w == "ibound":
                 ic, ref = fn.payload
-                argmap = self.bind_names(["self"] + list(ic.params), [ref] + args, kwargs, node, ic.target)
+                argmap = self.bind_names(["self"] + list(ic.params), [ref] + args, kwargs, node, ic.target, defaults=ic.defaults)
                 return self.apply_contract(ic, argmap, path, node)
             if w == "class":
                 return self.construct(fn.payload, args, kwargs, path, node)
@@ -533,7 +544,8 @@ class CallMixin:
         # arguments must have the kind the contract declares: a union argument (e.g. "time or None") is
         # narrowed, the excluded alternatives become safety obligations (TypeError in the callee otherwise)
         kinds = {sv.TTime: sv.STime, sv.TInt: sv.SInt, sv.TReal: sv.SReal, sv.TPay: sv.SPay, sv.TRef: sv.SRef,
-                 sv.TBool: sv.SBool, sv.TStr: sv.SStr, sv.TDelta: sv.SDelta}
+                 sv.TBool: sv.SBool, sv.TStr: sv.SStr, sv.TDelta: sv.SDelta, sv.TDict: sv.SDict, sv.TList: sv.SList,
+                 sv.TSet: sv.SSet, sv.TObj: sv.SObj}
         argmap = dict(argmap)
         for name, ty in c.params.items():
             k = kinds.get(type(ty))
@@ -736,6 +748,19 @@ class CallMixin:
                 return sv.NONE
             if attr == "copy":
                 return base
+            if attr == "update":
+                other = args[0] if args else None
+                if other is None and not kwargs:
+                    return sv.NONE
+                if isinstance(other, sv.SPy) and other.what == "kwargs":
+                    d = base
+                    for k, v in other.payload.items():
+                        d = self.dict_set(d, self.const(k), v)
+                    self.assign(lvalue, d, path)
+                    return sv.NONE
+                if isinstance(other, sv.SDict):
+                    self.assign(lvalue, self.dict_merge(base, other, path), path)
+                    return sv.NONE
             if attr == "pop":
                 key = args[0]
                 has = self.key_guarded(key, base.dom)
@@ -778,6 +803,8 @@ class CallMixin:
         if isinstance(f, ast.Name):
             if f.id in PURE_BUILTINS:
                 return True
+            if f.id.endswith("Error") or f.id.endswith("Exception"):
+                return True  # constructing an exception object has no effect on the program state
             return False
         if isinstance(f, ast.Attribute):
             if f.attr in PURE_METHODS:
